@@ -5,6 +5,7 @@ import (
 	"context"
 	"errors"
 	"fmt"
+	"os"
 	"sort"
 	"strings"
 	"sync"
@@ -25,18 +26,19 @@ func init() { areas["crash"] = areaCrash }
 // snapshots never decreases (C05), with injected Load / Store failures.
 type crashBucket struct {
 	simpleblob.Interface
-	mu        sync.Mutex
-	seqOf     map[string]int // name -> sequence number
-	instOf    map[string]int
-	next      int
-	events    *[]string
-	failStore int
-	lastUp    map[int]time.Time // instance -> time of its last successful upload
-	failLoad  map[string]int    // name prefix -> remaining failures
-	cleaner   int               // instance whose cleaner is running (-1 = none)
-	lost      []string
-	onUpload  func(inst int, name string) string
-	instIndex func(name string) int
+	mu           sync.Mutex
+	seqOf        map[string]int // name -> sequence number
+	instOf       map[string]int
+	next         int
+	events       *[]string
+	failStore    int
+	lastUp       map[int]time.Time // instance -> time of its last successful upload
+	failLoad     map[string]int    // name prefix -> remaining failures
+	cleaner      int               // instance whose cleaner is running (-1 = none)
+	lost         []string
+	wrongDeletes []string
+	onUpload     func(inst int, name string) string
+	instIndex    func(name string) int
 }
 
 type jver map[string]lver
@@ -125,6 +127,37 @@ func (b *crashBucket) Delete(ctx context.Context, name string) error {
 	b.mu.Lock()
 	defer b.mu.Unlock()
 	before := b.joinNewest(ctx)
+	// C12: an instance's NEWEST snapshot goes only after the cleaner's own process merged it and uploaded a
+	// snapshot of its own afterwards (never, therefore, the newest snapshot of the cleaner's own instance)
+	if pn, perr := snapshot.ParseName(name); perr == nil && b.cleaner >= 0 {
+		newest := true
+		if ls, err := b.Interface.List(ctx, ""); err == nil {
+			for _, o := range ls.Names() {
+				if po, err := snapshot.ParseName(o); err == nil && po.InstanceID == pn.InstanceID && o > name {
+					newest = false
+				}
+			}
+		}
+		if q, ok := b.seqOf[name]; ok && newest {
+			merged, uploadedAfter := false, false
+			startIdx := 0
+			for i, ev := range *b.events {
+				if ev == fmt.Sprintf("EStart %d", b.cleaner) {
+					startIdx = i // only what the CURRENT process of that instance did counts
+				}
+			}
+			for _, ev := range (*b.events)[startIdx:] {
+				if ev == fmt.Sprintf("EMerge %d %d", b.cleaner, q) {
+					merged = true
+				} else if merged && ev == fmt.Sprintf("EUpload %d", b.cleaner) {
+					uploadedAfter = true
+				}
+			}
+			if !merged || !uploadedAfter {
+				b.wrongDeletes = append(b.wrongDeletes, fmt.Sprintf("the cleaner of instance %d deleted %s, the NEWEST snapshot of instance %s (upload %d); its process had merged it: %v, and uploaded a snapshot of its own afterwards: %v", b.cleaner, name, pn.InstanceID, q, merged, uploadedAfter))
+			}
+		}
+	}
 	if err := b.Interface.Delete(ctx, name); err != nil {
 		return err
 	}
@@ -156,6 +189,11 @@ func (b *crashBucket) Load(ctx context.Context, name string) ([]byte, error) {
 		if n > 0 && strings.HasPrefix(name, p) {
 			b.failLoad[p] = n - 1
 			b.mu.Unlock()
+			if n%3 == 0 {
+				// an object store that lists a blob it cannot serve yet (read-after-list inconsistency, replication
+				// lag): a transient not-found error for a snapshot that IS there
+				return nil, fmt.Errorf("injected Load failure: %w", os.ErrNotExist)
+			}
 			return nil, errors.New("injected Load failure")
 		}
 	}
@@ -623,6 +661,29 @@ func areaCrash(r *Rng, n int, dir string) (*AreaOut, error) {
 			}
 			time.Sleep(10 * time.Millisecond)
 		}
+		// C10: an idle instance uploads at the configured forced interval, not at every poll
+		if forced && len(unpublished) == 0 {
+			const window = 360 * time.Millisecond
+			bk.mu.Lock()
+			ev0 := len(events)
+			bk.mu.Unlock()
+			time.Sleep(window)
+			bk.mu.Lock()
+			per := map[string]int{}
+			for _, ev := range events[ev0:] {
+				if strings.HasPrefix(ev, "EUpload ") {
+					per[ev]++
+				}
+			}
+			bk.mu.Unlock()
+			allowed := int(window/(30*time.Millisecond)) + 3
+			for ev, c := range per {
+				if c > allowed {
+					out.Oracle = append(out.Oracle, OracleFailure{"C10", "idle-uploads-only-at-forced-interval", fmt.Sprintf("applications stopped, nothing left to publish, storage_force_snapshot_interval 30 ms: instance %s uploaded %d snapshots in %v (at most %d fit the interval; LMDB poll interval 2 ms)", strings.TrimPrefix(ev, "EUpload "), c, window, allowed), map[string]any{"native": native, "forced_interval": "30ms"}})
+				}
+			}
+			hist(out.Hist, "forced-interval-rate-checked")
+		}
 		// C01 on the real loops: once nothing is left to publish and the fleet has gone quiet, every live instance
 		// that has merged the newest snapshot of every other instance holds the same logical content
 		if len(unpublished) == 0 && !forced {
@@ -745,6 +806,9 @@ func areaCrash(r *Rng, n int, dir string) (*AreaOut, error) {
 		out.CaseDescs = append(out.CaseDescs, cs)
 		hist(out.Hist, fmt.Sprintf("native=%v/instances=%d/restarts=%d/cleaner-runs=%d", native, ni, min(restarts, 3), min(deletes, 3)))
 		out.OracleN++
+		for _, w := range bk.wrongDeletes {
+			out.Oracle = append(out.Oracle, OracleFailure{"C12", "newest-snapshot-deleted", w, map[string]any{"native": native, "events": lst(events)}})
+		}
 		for _, l := range bk.lost {
 			clause := "join-never-decreases"
 			if strings.HasPrefix(l, "own-first") {
@@ -754,6 +818,9 @@ func areaCrash(r *Rng, n int, dir string) (*AreaOut, error) {
 		}
 	}
 	_ = bytes.Equal
+	if err := hookReady(out); err != nil {
+		return nil, err
+	}
 	out.Cases = len(cases)
 	out.Distinct = len(nontriv)
 	for i := 0; i < 2 && i < len(cases); i++ {
